@@ -36,7 +36,7 @@ def pack_events(events, widths, big, datatype='I'):
 def build(version='FCS3.0', pairs=(), data=b'', delim='/', supp_pairs=None, analysis_pairs=None,
           offsets_in='header', end_conv='last', pad_text=0, pad_data=0, pad_tail=0,
           analysis_in='header', supp_lead=True, trailing_text='', raw_text=None, raw_supp=None,
-          raw_analysis=None, analysis_lead=True):
+          raw_analysis=None, analysis_lead=True, offset_style='zero'):
     """Assemble HEADER + TEXT + [sTEXT] + DATA + [ANALYSIS].  pairs must NOT contain the offset
     keywords ($BEGINDATA ...); they are added here for 3.x with fixed-width values.
     Returns (bytes, layout dict)."""
@@ -48,9 +48,11 @@ def build(version='FCS3.0', pairs=(), data=b'', delim='/', supp_pairs=None, anal
             return raw_text
         ps = list(pairs)
         if v3:
-            ps = [('$BEGINANALYSIS', '%08d' % off['ab_t']), ('$ENDANALYSIS', '%08d' % off['ae_t']),
-                  ('$BEGINSTEXT', '%08d' % off['sb']), ('$ENDSTEXT', '%08d' % off['se']),
-                  ('$BEGINDATA', '%08d' % off['db_t']), ('$ENDDATA', '%08d' % off['de_t'])] + ps
+            # the offsets as writers render them: zero-padded, or blank-padded on either side (fixed width either way)
+            fmt = {'zero': '%08d', 'right': '%8d', 'left': '%-8d'}[offset_style]
+            ps = [('$BEGINANALYSIS', fmt % off['ab_t']), ('$ENDANALYSIS', fmt % off['ae_t']),
+                  ('$BEGINSTEXT', fmt % off['sb']), ('$ENDSTEXT', fmt % off['se']),
+                  ('$BEGINDATA', fmt % off['db_t']), ('$ENDDATA', fmt % off['de_t'])] + ps
         return encode_text(ps, delim) + trailing_text
 
     zero = dict(ab_t=0, ae_t=0, sb=0, se=0, db_t=0, de_t=0)
